@@ -380,6 +380,19 @@ fn pointer_queries(rng: &mut Rng) -> Vec<Vec<u8>> {
         vec![1, b'a', 0xc0, 0x04], vec![3, b'o', b'd', b'd', 0xc0, 0x05], vec![0xc0, 0x10, 0, 1, 0, 1, 1, b'a', 0],
         vec![1, b'a', 0xc0, 0x12, 0, 1, 0, 1, 3, b'o', b'd', b'd', 0], vec![63, b'a'], vec![64], vec![0x80, 0x00], vec![0x40, 0x00],
     ];
+    // well-delimited names whose length octets use the reserved label types 0b01 / 0b10 (0x40–0xBF)
+    // *with* that many octets following and a proper end — a parser that masks the wrong bits reads
+    // them as labels of 64–191 octets and echoes an illegal name (C02: every name well formed)
+    let mut bodies = bodies;
+    for first in [0x40u8, 0x41, 0x7f, 0x80, 0x85, 0xa0, 0xbf] {
+        for prefix in [false, true] {
+            let mut b: Vec<u8> = if prefix { vec![3, b'w', b'w', b'w'] } else { vec![] };
+            b.push(first);
+            b.extend(std::iter::repeat(b'x').take(first as usize));
+            b.extend_from_slice(&[3, b'o', b'd', b'd', 0, 0, 1, 0, 1]);
+            bodies.push(b);
+        }
+    }
     for b in bodies {
         for (qd, an, ar) in [(1u16, 0u16, 0u16), (1, 1, 0), (1, 0, 1), (0, 1, 0), (0, 0, 1)] {
             let mut m = dns::header(rng.next() as u16, if rng.chance(1, 2) { 0x0100 } else { 0 }, qd, an, 0, ar);
@@ -676,6 +689,9 @@ fn exec_history(zs: &[ZoneCfg], keys: &[KeyCfg], payload: u16, p: &[u64], steps:
                 }
                 all_cands.push(cands);
                 rnds.push(rnd);
+                // a panic inside the RRL step poisons the bucket mutex: nothing more can be asked of
+                // this server (the history ends here, with the panic recorded as its last result)
+                if res.last().map(|r| r == "panic").unwrap_or(false) { break; }
             }
         }
     }
